@@ -17,7 +17,8 @@ EXPLANATION = ("Program.emit's loop is cut at an inductive invariant (run addres
                "iteration of the real body is executed per node kind (any frame-respecting node with symbolic bytes, the real `*=`, `@=` and "
                ".include_ips nodes) from an arbitrary state on the live LoROM / HiROM buses and a generic user-mapped bus; a per-iteration step "
                "contract pins what reaches the writer and the pending block; the final flush and the entry state are separate obligations. "
-               "Every real node class is proved to respect the frame the generic node stands for.  Address.__add__ is used through its contract (C04).")
+               "Every real node class is proved to respect the frame the generic node stands for.  Address.__add__ is used through its contract (C04)."
+               '  User-defined mappings: what Bus.map registers (primary and mirror entries with the same window and ROM/RAM status) and the offset / advance laws are proved with the `.map` address window symbolic (shared with C04); emit refuses no record and no placement itself (only a phase error stops it).')
 TRUSTED = ["vf/specs/progmodel.py (protocol model of a frame-respecting node, recording writer)", "vf/specs/busmath.py, vf/specs/busmodel.py"]
 ASSUMPTIONS = ["composition on paper: invariant + step contract per iteration => the writer receives exactly the emitted bytes, contiguous and in source order "
                "per block, at current_block_addr (induction over the node list)",
